@@ -26,7 +26,17 @@ def run(ctx):
     ctx.add_tlc(res)
     tlc_file = ctx.path("tlc.ndjson")
     vlib.write_ndjson(tlc_file, res.replay)
-    out, tracep = common.harness_json(ctx, "c12", {"tlc_file": tlc_file, "seed": ctx.seed, "random": 300 if q else 20000,
+    # trivia at every token boundary inside a datum
+    sres = vlib.run_tlc(os.path.join(vlib.SPEC, "mc", "C12Spaced.tla"), workdir=ctx.path("tlc"), workers=8)
+    if sres.notes:
+        vlib.log("spaced text misread on the specification: " + sres.notes[0][:300])
+    vlib.require_clean_tlc(sres, "C12 trivia between the tokens of a datum")
+    if sres.notes:
+        raise vlib.ToolError("C12Spaced: the reference reader misreads %d spaced texts" % len(sres.notes))
+    ctx.add_tlc(sres)
+    spaced_file = ctx.path("spaced.ndjson")
+    vlib.write_ndjson(spaced_file, sres.replay)
+    out, tracep = common.harness_json(ctx, "c12", {"tlc_file": tlc_file, "spaced_file": spaced_file, "seed": ctx.seed, "random": 300 if q else 20000,
                                                     "trace_bytes": 200000 if q else 3000000, "stride": 40 if q else 3000,
                                                     "maxvals": 2 if q else 3}, timeout=7200)
     for b in out["bad"]:
